@@ -11,7 +11,7 @@
   NOT modelled, tied to the reference only by the differential (harness/c08): the tree node algorithms of art/ and rbt/
   (lookup, insertion, node growth, prefix split, rebalancing, iterator seek), the arena's block arithmetic.
 -/
-import ClientGoVerif.Proofs.VLogView
+import ClientGoVerif.Proofs.MemBufOrder
 namespace CGV.Props.C08
 open CGV CGV.MemBuf
 
@@ -267,6 +267,43 @@ example :
         .release 1, .setLimits 2 100, .set [0x6b] [1, 2, 3] [], .revert 1, .get [0x6b], .get [0x6c], .getFlags [0x6d]]).2
       = [.ok, .num 1, .ok, .num 1, .ok, .ok, .ok, .ok, .err .entryTooLarge, .ok, .val [0xaa], .notFound, .flags 2] := by
   decide
+
+/-! ## the buffer as an ordered map: what the iterators yield -/
+
+/-- Iter / IterReverse / IterWithFlags / IterReverseWithFlags, after ANY sequence of calls: the answer is exactly the set of
+    keys of the map that lie in `[lo, hi)` (byte-wise order, empty bound = unbounded; `inRange_iff`) and carry a value (or
+    any key in the buffer when flag-only keys are asked for), each with the flags `GetFlags` and the value `Get` report, in
+    strictly ascending key order — the reverse iterators yield the same list backwards. -/
+theorem iter_is_sorted_filter (ops : List Op) (lo hi : Bytes) (wf : Bool) :
+    ∃ fwd, ((VLog.init.run ops).1.step (.iter lo hi false wf)).2 = .items fwd ∧
+      ((VLog.init.run ops).1.step (.iter lo hi true wf)).2 = .items fwd.reverse ∧
+      fwd.Pairwise (fun a b => Bytes.lt a.key b.key = true) ∧
+      ∀ it, it ∈ fwd ↔
+        (inRange lo hi it.key = true ∧ ((VLog.init.run ops).1.step (.getFlags it.key)).2 = .flags it.flags ∧
+          ((VLog.init.run ops).1.step (.get it.key)).2 = valueOut it.value ∧ (wf = true ∨ it.value.isSome = true)) := by
+  have hi' := (run_refines inv_init ops).2
+  obtain ⟨h1, h2⟩ := iter_sorted hi' lo hi wf
+  exact ⟨_, rfl, by show Out.items _ = _; rw [h2], h1, fun it => iter_mem hi' lo hi false wf it⟩
+
+/-- SnapshotIter / SnapshotIterReverse (and the GetSnapshot iterators), after ANY sequence of calls: exactly the in-range keys
+    for which the snapshot getter has a value, with that value, strictly ascending (reverse: backwards).  Combined with
+    `snapshot_ignores_staged`: the iteration shows the map as it was when stage 1 was opened. -/
+theorem snapIter_is_sorted_filter (ops : List Op) (lo hi : Bytes) :
+    ∃ fwd, ((VLog.init.run ops).1.step (.snapIter lo hi false)).2 = .items fwd ∧
+      ((VLog.init.run ops).1.step (.snapIter lo hi true)).2 = .items fwd.reverse ∧
+      fwd.Pairwise (fun a b => Bytes.lt a.key b.key = true) ∧
+      ∀ it, it ∈ fwd ↔
+        (inRange lo hi it.key = true ∧ it.flags = 0 ∧
+          ∃ v, it.value = some v ∧ ((VLog.init.run ops).1.step (.snapGet it.key)).2 = .val v) := by
+  have hi' := (run_refines inv_init ops).2
+  obtain ⟨h1, h2⟩ := snapIter_sorted hi' lo hi
+  exact ⟨_, rfl, by show Out.items _ = _; rw [h2], h1, fun it => snapIter_mem hi' lo hi false it⟩
+
+/-- the key order is a strict total order (the model of `bytes.Compare`) -/
+theorem key_order_strict_total (a b c : Bytes) :
+    Bytes.lt a a = false ∧ (Bytes.lt a b = true → Bytes.lt b c = true → Bytes.lt a c = true) ∧
+    (a ≠ b → Bytes.lt a b = false → Bytes.lt b a = true) :=
+  ⟨blt_irrefl a, blt_trans, blt_total⟩
 
 /-! ## non-vacuity of the hypotheses -/
 
